@@ -117,6 +117,7 @@ func f64Ptr(f float64) *float64 {
 func forType(t reflect.Type, seen map[reflect.Type]bool, ignore bool, schemas map[reflect.Type]*Schema) (*Schema, error) {
 	// Follow pointers: the schema for *T is almost the same as for T, except that
 	// an explicit JSON "null" is allowed for the pointer.
+	verifPoint("forType")
 	allowNull := false
 	for t.Kind() == reflect.Pointer {
 		allowNull = true
